@@ -380,10 +380,11 @@ class Body:
         for i in self.rblocks:
             b = self.blocks[i]
             for j, s in enumerate(b["stmts"]):
-                if s["k"] == "assign":
-                    self.defs[s["place"]["l"]].append((i, j, "assign", s))
-                elif s["k"] == "setdiscr":
-                    self.defs[s["place"]["l"]].append((i, j, "setdiscr", s))
+                if s["k"] in ("assign", "setdiscr"):
+                    pr = s["place"]["p"]
+                    if pr and pr[0] == "*":
+                        continue        # a store through a pointer: not a definition of the pointer local
+                    self.defs[s["place"]["l"]].append((i, j, s["k"], s))
             t = b["term"]
             if t["k"] == "call":
                 self.defs[t["dest"]["l"]].append((i, len(b["stmts"]), "call", t))
